@@ -292,6 +292,31 @@ def check_foreign(ctx, seed, idx):
     if diffs:
         w['diffs'] = diffs
         ctx.report(classify_diffs(diffs), 'conformant foreign message parsed differently: %s' % (diffs[:4],), w, case)
+    if not diffs and not nfd:
+        # (messages carrying descriptors are left out: the built-in bus does not pass descriptors on at all, and the
+        # statement speaks of messages that are constructed, not of this internal path; see DESIGN.md 7.1)
+        # a received message is passed on by serialising the parsed object again around its body as received (this is
+        # what the built-in bus does with every message): that serialisation must be well-formed as well and carry the
+        # same type, serial, flags, known header fields and body
+        p0 = RM.parse(raw, strict=True)
+        try:
+            m._marshal(False, rawBody=m.rawBody)
+            p1 = RM.parse(m.rawMessage, strict=True)
+        except R.CodecError as e:
+            w['reserialised'] = m.rawMessage
+            ctx.report('reserialised-malformed', 'a parsed %s serialised again (as the bus passes it on) is not well-formed: '
+                       '%s' % (RM.TYPE_NAMES.get(exp['type'], exp['type']), e), w, case)
+            return
+        except Exception as e:
+            ctx.report('reserialise-raised', 'serialising a parsed message again raised %r' % e, w, case)
+            return
+        ctx.count('reserialised')
+        same = (p1.mtype == p0.mtype and p1.serial == p0.serial and (p1.flags & 3) == (p0.flags & 3) and p1.fields == p0.fields and
+                R.plain_eq(p1.body, p0.body) and m.rawMessage[0:1] == raw[0:1])
+        if not same:
+            w['reserialised'] = m.rawMessage
+            ctx.report('reserialised-differs', 'a parsed message serialised again differs: %r became %r' % (p0, p1), w, case)
+            return
     ctx.distinct('nontrivial_cases', ('foreign', exp['type'], info['little'], info['flags'],
                                       tuple(sorted(k for k in exp if k in FIELDS and exp[k] is not None)),
                                       bool(info['unknown_codes'])))
@@ -388,11 +413,11 @@ def run(ctx):
     nf = (3000 if ctx.tier == 'quick' else 80000) // sn
     ctx.budget(40 if ctx.tier == 'quick' else 500)
     for i in range(nb):
-        check_built(ctx, ctx.seed, i * sn + si)
+        check_built(ctx, ctx.seed, si * nb + i)        # contiguous blocks: type and byte order cycle with the index
         if ctx.stop_early() or (i % 64 == 0 and ctx.out_of_time()):
             break
     for i in range(nf):
-        check_foreign(ctx, ctx.seed, i * sn + si)
+        check_foreign(ctx, ctx.seed, si * nf + i)
         if ctx.stop_early() or (i % 64 == 0 and ctx.out_of_time()):
             break
     ctx.note('serials_seen', len(_serials))
